@@ -146,6 +146,40 @@ def ising_site_dependent_case(ctx, idx, rng):
     ctx.ok('automaton-model.bond-dims==schmidt-ranks', list(op.bond_dims) == ranks, f'bond dims {list(op.bond_dims)} vs operator Schmidt ranks {ranks} ({form})', detail)
 
 
+def long_lattice_case(ctx, idx, rng):
+    """Lattices far beyond the dense reach (Fermi-Hubbard 300..330, Bose-Hubbard 320..340, XXZ 520..540 sites, optimized molecular L = 12, 15, 18): per-site
+    bipartite problems with hundreds to 14641 right vertices against a handful of left vertices (size- and ratio-dependent shortcuts in the cover routine).
+    Reference for the translation-invariant models: the bond profile of the SAME model at L = 12 (dense-checked family), whose first two, interior and last
+    two bonds must repeat; for the molecular model the closed formula of the optimal construction (Chan et al.; D1 + D2 + D3 below)."""
+    which = ('fermi', 'bose3', 'xxz', 'molecular')[idx % 4]
+    p = generic(rng, 3)
+    if which == 'molecular':
+        L = (12, 15, 18)[(idx // 4) % 3] if ctx.tier == 'thorough' else 12
+        t = rng.normal(size=(L, L)); v = rng.normal(size=(L, L, L, L))
+        H = ptn.molecular_hamiltonian_mpo(t, v, optimize=True)
+        want = []
+        for i in range(L + 1):
+            nl, nr = i, L - i
+            n = min(nl, nr)
+            D1 = 2 if 1 < i < L - 1 else 1
+            D2 = 2 * min(nl ** 2 * (nl - 1) // 2, nr) + 2 * min(nl, nr ** 2 * (nr - 1) // 2)
+            D3 = 2 * n * (n - 1) // 2 + n ** 2
+            want.append(D1 + D2 + D3)
+    else:
+        L = {'fermi': int(rng.integers(300, 331)), 'bose3': int(rng.integers(320, 341)), 'xxz': int(rng.integers(520, 541))}[which]
+        if ctx.tier == 'quick':
+            L = {'fermi': 300, 'bose3': 322, 'xxz': 200}[which]
+        mk = {'fermi': lambda n: ptn.fermi_hubbard_mpo(n, *p), 'bose3': lambda n: ptn.bose_hubbard_mpo(3, n, *p), 'xxz': lambda n: ptn.heisenberg_xxz_mpo(n, *p)}[which]
+        H = mk(L)
+        small = list(mk(12).bond_dims)
+        want = small[:3] + [small[6]] * (L + 1 - 6) + small[-3:]
+    ctx.case(('long-lattice', which, f'L{L}'), sample={'model': which, 'L': L, 'params': p if which != 'molecular' else None})
+    detail = {'model': which, 'L': L, 'params': p}
+    got = list(H.bond_dims)
+    bad = [(i, g, w) for i, (g, w) in enumerate(zip(got, want)) if g != w][:6]
+    ctx.ok('long-lattice.bond-dims==reference-profile', got == want, f'bond dimensions differ from the reference profile at (bond, got, expected) {bad}', detail)
+
+
 def chains_case(ctx, idx, rng):
     L = int(rng.integers(2, 9))
     kind = str(rng.choice(['few', 'many', 'shared-prefix', 'shared-suffix', 'with-zeros']))
@@ -212,6 +246,7 @@ SPEC = {
     'workloads': [
         Workload('models', model_case, quick=300, thorough=16200),
         Workload('round-parameters', round_params_case, quick=200, thorough=12000),
+        Workload('long-lattice', long_lattice_case, quick=4, thorough=24),
         Workload('ising-site-dependent', ising_site_dependent_case, quick=240, thorough=12000),
         Workload('chains', chains_case, quick=1800, thorough=200000),
         Workload('simplify', random_graph_case, quick=900, thorough=100000),
